@@ -70,7 +70,8 @@ def _run(sc, r, scratch, i):
     op, cfg = sc["op"], sc["cfg"]
     backup = os.path.join(d, "backup")
     subprocess.run(["cp", "-a", troot, backup], check=True)
-    res, gargv = ddcase.run_group_for(sc, troot, home)
+    amb = common.ambient_env(r, elsewhere=d)
+    res, gargv = ddcase.run_group_for(sc, troot, home, extra_env=amb)
     if res.timed_out or res.rc != 0:
         return [inconclusive("group failed/timed out")]
     report = res.out
@@ -86,7 +87,7 @@ def _run(sc, r, scratch, i):
     scripts = []
     for threads, jit in ((1, None), (2, "7:300"), (16, "11:800")):
         dcfg = dict(cfg, dry_run=True)
-        env = {"FCLONES_VERIF_JITTER": jit} if jit else {}
+        env = dict(amb, **({"FCLONES_VERIF_JITTER": jit} if jit else {}))
         dres, dargv = dd.run_dedupe(op, dcfg, report, troot, home, target=target, extra_env=env, threads=threads)
         if dres.timed_out:
             return [inconclusive("dry run timed out")]
